@@ -19,6 +19,16 @@ THEOREMS = [
         "argBest_optimal", "argBest_some_of_ne_nil", "no_blocking_compatible", "no_blocking_incompatible",
         "stage1_exhaustive", "refines_greedy_spec", "greedy_unique_of_no_ties", "pairs_independent_of_index_order",
         "valid_is_code_table",
+        # the result WITH ties (lean/PEval/Lemmas/MatchingRowMajor.lean): the tie-break of the code is "first best available
+        # cell in row-major order of the remaining table"; the rule is stated on the table alone, every step of the model is
+        # exactly such a pick, the rule is functional on every table, the results are its unique outcome (no NoTies hypothesis)
+        "pick_is_first_best_row_major", "loop_stops_iff_nothing_available", "remaining_lists_increasing", "pick_is_lex_least",
+        "refines_row_major_spec", "row_major_spec_functional", "result_is_the_row_major_greedy",
+        "row_major_spec_refines_any_best",
+        # uniqueness of the any-best relation under the weaker, decidable hypothesis "no step has two best candidates"
+        "noBestTies_of_noTies", "greedy_unique_of_no_best_ties", "pairs_independent_of_index_order_local",
+        # totality companions of the .ok-conditional statements (details: PEval.C01.cell_raises_iff, raises_first_failing_cell)
+        "total_of_wellformed", "raises_iff", "no_blocking_pair_of_wellformed",
     ]
 ] + (
     # decision table of MatchingLabelPolicy.is_matchable, regenerated from the source on every run (harness/dt_match.py)
